@@ -216,6 +216,30 @@ func init() {
 			"feature_delta_length_byte_array", "feature_delta_byte_array", "feature_byte_stream_split", "feature_rle_boolean", "feature_bit_packed_def_levels", "feature_bit_packed_rep_levels",
 			"feature_codec_lzo", "feature_codec_brotli", "feature_codec_lz4", "feature_codec_zstd", "feature_codec_lz4_raw", "feature_in_later_row_group", "feature_in_later_page"},
 	})
+	addSpec(&Spec{ID: "C05", Title: "parquetgen never emits silently wrong code", Level: "translation_validation",
+		Rule: "programs = every struct shape of the bounded grammar (ordered forests of {leaf, group} x {required, optional, repeated}, depth <= 3, leaf types round-robin over the 8 primitives): " +
+			"quick all 1209 shapes with <= 4 nodes; thorough all 9471 with <= 5 nodes plus a fixed sample of 2000 with 6-8 nodes; each program is generated twice (determinism), compiled, and validated on its inputs: " +
+			"every structurally distinct record (nil/non-nil x list length 0,1,2; cap 150) alone and together at page sizes 1, 2, 1000 and in 3 batches, plus seeded random multi-row-group files, through the C02, C03 and C01 monitors; " +
+			"a failing program is a disagreement, matched against known_findings.json by (shape signature, failure kind); distinct = shape signature; non-trivial = shape has a group or an optional/repeated leaf",
+		EvalCounter:  "cases",
+		PrivateCache: true,
+		TimeoutQuick: 1800, TimeoutThor: 7200,
+		RequireFn: func(r *Run) []string {
+			var out []string
+			if r.Replay == nil && r.M.Counters["programs"] != r.M.Counters["programs_enumerated"] {
+				out = append(out, fmt.Sprintf("%d programs processed of %d enumerated", r.M.Counters["programs"], r.M.Counters["programs_enumerated"]))
+			}
+			done := r.M.Counters["programs_run"] + r.M.Counters["kind_gen_fail"] + r.M.Counters["kind_compile_fail"] + r.M.Counters["kind_nondeterministic"]
+			if r.Replay == nil && done != r.M.Counters["programs_enumerated"] {
+				out = append(out, fmt.Sprintf("%d programs accounted for (run or failed to build) of %d enumerated", done, r.M.Counters["programs_enumerated"]))
+			}
+			if r.M.Counters["programs_clean_nontrivial"] == 0 {
+				out = append(out, "no non-trivial program passed all monitors")
+			}
+			return out
+		},
+		Custom: customC05,
+	})
 }
 
 func runCheck(prop, tier string, seed int64, only string) int {
